@@ -2,12 +2,15 @@
 C05 — Memory and DB metadata stores expose the same filesystem for the same blob.
 
 Only property theorems and their non-vacuity examples live here.  The two interpreters
-(`memTree`, `dbTree`), the canonical `view` and the bolt model are in `SV.Model.Toc`.
+(`memTree`, `dbTree`), the canonical `view` and the bolt model are in `SV.Model.Toc`; the decidable
+fragment `SpecConforming` and the simulation proof are in `SV.Lemmas.TocAgree`.
 -/
-import SV.Lemmas.Toc
+import SV.Lemmas.TocAgree
 
 namespace SV.Props.C05
 open SV.Toc
+
+/-! ### Names -/
 
 /-- `cleanEntryName` is idempotent: cleaning the rendering of a cleaned name changes nothing
 (both stores clean every name and link target, the db store several times). -/
@@ -19,10 +22,7 @@ theorem cleanName_components_plain (s : String) :
     ∀ c ∈ cleanChars s.toList, c ≠ [] ∧ c ≠ ['.'] ∧ c ≠ ['.', '.'] ∧ '/' ∉ c :=
   cleanChars_plain s.toList
 
-/-- `sort.Search` as both `ChunkEntryForOffset`s call it: total and in range for ANY predicate
-(an attacker-chosen chunk table cannot drive the index out of the table). -/
-theorem searchFirst_in_range (n : Nat) (f : Nat → Bool) : searchFirst n f ≤ n :=
-  searchFirst_le n f
+/-! ### Attribute encoding and chunk tables -/
 
 /-- Attribute encoding round trip of the db store: what `readAttr` gives back for a bucket
 written by `writeAttr` is the original `Attr` as far as a container can observe it
@@ -31,32 +31,77 @@ theorem attr_roundtrip (a : Attr) (hm : a.mode < 4294967296) (hx : (a.xattrs.map
     normalise (readAttr (writeAttr {} a)) = normalise a :=
   readAttr_writeAttr a hm hx
 
-/-- Chunk tables: the memory store's rows (sizes taken from the TOC, `single` shortcut for files
-with fewer than two rows) and the db store's rows (only offsets and digests are stored, sizes
-recomputed from the neighbouring offsets) answer `ChunkEntryForOffset` identically for every
-file offset, when the TOC rows tile `[0, size)`. -/
+/-- `sort.Search` as both `ChunkEntryForOffset`s call it: total and in range for ANY predicate
+(an arbitrary chunk table cannot drive the index out of the table). -/
+theorem searchFirst_in_range (n : Nat) (f : Nat → Bool) : searchFirst n f ≤ n :=
+  searchFirst_le n f
+
+/-- Chunk tables, row level: the memory store's rows (sizes taken from the TOC, `single` shortcut
+for files with fewer than two rows) and the db store's rows (only offsets and digests are stored,
+sizes recomputed from the neighbouring offsets by `readChunks`) answer `ChunkEntryForOffset`
+identically for every file offset, when the TOC rows tile `[0, size)`. -/
 theorem chunk_lookup_rows_agree (size : Int) (m d : List Chunk) (hc : Contig 0 size m)
     (he : d.map eraseSize = m.map eraseSize) (x : Int) (hx : 0 ≤ x) :
     (match m with
      | [] => ChunkTab.single 0 0 ""
      | [r] => ChunkTab.single r.chunkOffset r.chunkSize r.digest
-     | _ => ChunkTab.table m).lookup x = (ChunkTab.table (readChunks d size)).lookup x := by
-  rw [readChunks_contig d m size hc he]
-  match m, hc with
-  | [], hc =>
-    simp only [Contig] at hc
-    simp [ChunkTab.lookup, searchChunk, searchFirst, searchLoop, hx]
-  | [r], hc =>
-    obtain ⟨h1, h2, h3⟩ := hc
-    simp only [ChunkTab.lookup]
-    rw [searchChunk_contig [r] 0 size ⟨h1, h2, h3⟩ x]
-    simp only [List.find?, covers]
-    by_cases hlt : x ≥ r.chunkSize
-    · have : ¬ (x < r.chunkOffset + r.chunkSize) := by omega
-      simp [hlt, this]
-    · have : x < r.chunkOffset + r.chunkSize := by omega
-      simp [hlt, this]
-  | _ :: _ :: _, _ => rfl
+     | _ => ChunkTab.table m).lookup x = (ChunkTab.table (readChunks d size)).lookup x :=
+  lookup_rows_agree size m d hc he x hx
+
+/-! ### The two stores on SpecConforming TOCs -/
+
+/-- **Both stores accept every SpecConforming TOC and expose the same filesystem**: the canonical
+views (sorted names, FUSE-normalised attributes incl. link counts and xattrs, node identity of
+hardlinked names, `GetOffset`, `OpenFile` outcome, chunk triples at every probe offset) of
+`memTree es` and `dbTree es` are equal.
+
+`SpecConforming` (decidable, `SV.Lemmas.TocAgree`) allows implicit parent directories at any depth,
+hardlinks to earlier entries including hardlinks to hardlinks by any spelling, entries without
+per-file digest, `./`, `../`, `//` spellings, arbitrary (also empty-valued) xattrs, any modes and
+owners, several files in one stream (offsets are unconstrained), chunked files whose rows tile the
+file.  It excludes what the CURRENT stores are observed to disagree on (candidate findings, replayed
+on the implementation every run): an entry for the root directory itself, a directory entry placed
+after something below it, a name used twice, data entries that carry a digest but no chunkDigest,
+offsets on entries without data.  Repeated identical directory entries are not covered by this
+theorem (see `StoresAgreeFull`), hence `_partial`. -/
+theorem stores_agree_partial (es : List Entry) (sc : SpecConforming es) :
+    ∃ tm td, memTree es = .accept tm ∧ dbTree es = .accept td ∧ view tm = view td :=
+  views_agree sc
+
+/-- the same, on `viewOf`: equal views, and neither store rejects -/
+theorem stores_agree_viewOf_partial (es : List Entry) (sc : SpecConforming es) :
+    viewOf (memTree es) = viewOf (dbTree es) ∧ (viewOf (memTree es)).isSome := by
+  obtain ⟨tm, td, h1, h2, h3⟩ := views_agree sc
+  rw [h1, h2]; simp [viewOf, h3]
+
+/-- **Both `ChunkEntryForOffset`s return the same triple for every file offset of every node**:
+the nodes both stores list are the same (same paths, same identities), and for each of them the
+memory store's lookup (binary search over `r.chunks[name]`, or the single-entry shortcut) and the db
+store's lookup (binary search over the table `readChunks` rebuilds) agree at every offset `≥ 0`. -/
+theorem chunk_lookup_agree (es : List Entry) (sc : SpecConforming es) :
+    ∃ tm td, memTree es = .accept tm ∧ dbTree es = .accept td ∧
+      listing tm maxDepth [] tm.root [] = listing td maxDepth [] td.root [] ∧
+      ∀ pk, pk ∈ (listing tm maxDepth [] tm.root []).1 → ∀ x : Int, 0 ≤ x →
+        (tm.node pk.2).chunks.lookup x = (td.node pk.2).chunks.lookup x := by
+  obtain ⟨smF, sdF, h1, h2, ag⟩ := trees_agree sc
+  have hl := listing_agree ag maxDepth [] Key.root [] ag.rootC
+  exact ⟨_, _, h1, h2, hl.1, fun pk hpk x hx => (ag.node pk.2 (hl.2 pk hpk)).lookup x hx⟩
+
+/-- The statement DESIGN.md asks for, with repeated directory entries: every directory may be
+announced more than once by identical entries.  Open: the proof above keys nodes by the entry
+that created them, and the memory store keeps the LAST of several equal directory entries while
+the db store keeps the FIRST, so the simulation needs a renaming of keys that is not done yet.
+The implementation and both interpreters are compared on such TOCs every run (stream "conf",
+feature `dir-repeated`) without a single disagreement so far. -/
+def StoresAgreeFull : Prop :=
+  ∀ es : List Entry,
+    (∃ es' : List Entry, SpecConforming es' ∧
+      -- es is es' with some directory entries repeated (same fields, any spelling of the name)
+      ∃ dup : List (Nat × Entry), (∀ d ∈ dup, ∃ h : d.1 < es'.length,
+          es'[d.1].type = "dir" ∧ d.2.type = "dir" ∧ cleanName d.2.name = cleanName es'[d.1].name ∧
+          { d.2 with name := "" } = { es'[d.1] with name := "" }) ∧
+        es = es' ++ dup.map Prod.snd) →
+    viewOf (memTree es) = viewOf (dbTree es)
 
 /-! ### Layers in one bolt file -/
 
@@ -76,22 +121,6 @@ def applyOp (b : Bolt) : BoltOp → Bolt
   | .openFs fs t => b.openFs fs t
   | .closeFs fs => b.closeFs fs
   | .query _ => b
-
-theorem get_filter_ne (b : Bolt) (a c : Nat) (h : c ≠ a) :
-    Bolt.get (b.filter (·.1 ≠ a)) c = Bolt.get b c := by
-  induction b with
-  | nil => rfl
-  | cons x xs ih =>
-    by_cases hx : x.1 = a
-    · simp only [List.filter, hx, ne_eq, not_true_eq_false, decide_false]
-      rw [ih]
-      obtain ⟨i, t⟩ := x
-      simp only at hx
-      simp [Bolt.get, hx, Ne.symm h]
-    · obtain ⟨i, t⟩ := x
-      simp only at hx
-      simp only [List.filter, ne_eq, hx, not_false_eq_true, decide_true, Bolt.get]
-      rw [ih]
 
 /-- Operations on other layers leave layer `b`'s tree exactly as it was: several layers opened,
 queried and closed in any order in one database do not influence each other. -/
@@ -127,5 +156,31 @@ theorem close_removes (s : Bolt) (a : Nat) : Bolt.get (s.closeFs a) a = none := 
 /-- a freshly opened layer is served from its own tree -/
 theorem open_serves (s : Bolt) (a : Nat) (t : Tree) : (Bolt.get (s.openFs a t) a).isSome := by
   simp [Bolt.openFs, Bolt.get]
+
+/-! ### Non-vacuity -/
+
+/-- a TOC with implicit parents three levels deep, a chunked file whose last row has no size, a
+directory with two empty-valued xattrs, a hardlink by an odd spelling, a hardlink to that
+hardlink, an empty file and a symlink -/
+def exampleTOC : List Entry := [
+  { name := "./a/b/c.txt", type := "reg", size := 10, chunkSize := 4, offset := 100, chunkDigest := "d0" },
+  { name := "a/b/c.txt", type := "chunk", chunkOffset := 4, chunkSize := 4, offset := 200, chunkDigest := "d1" },
+  { name := "", type := "chunk", chunkOffset := 8, offset := 300, chunkDigest := "d2" },
+  { name := "../a/x/", type := "dir", mode := 0o755, xattrs := [("user.a", ""), ("user.b", "")] },
+  { name := "a/x/l1", type := "hardlink", linkName := "/a/b/../b/c.txt" },
+  { name := "l2", type := "hardlink", linkName := "a/x/l1" },
+  { name := "a/x/empty", type := "reg" },
+  { name := "s", type := "symlink", linkName := "a/b" } ]
+
+set_option maxRecDepth 100000 in
+example : SpecConforming exampleTOC := by decide
+
+example : cleanName "./a/../b//c/./d/.." = ["b", "c"] := by decide
+
+example : Contig 0 10 [⟨0, 4, "d0", 100⟩, ⟨4, 4, "d1", 200⟩, ⟨8, 2, "d2", 300⟩] := by
+  simp [Contig]
+
+example : (readAttr (writeAttr {} { mode := 0o644, numLink := 1, xattrs := [("user.a", ""), ("user.b", "v")] })).xattrs
+    = [("user.a", ""), ("user.b", "v")] := by decide
 
 end SV.Props.C05
